@@ -140,7 +140,7 @@ def explain(text, impl_tokens, spec_tokens, verdict, run=None):
             ids.append('D36'); aa = aa2
         if aa != ab:
             names = re.findall(r'<!ATTLIST\s+([^\s>]+)', text)
-            if W.has_reference_to_markup_entity(text):
+            if W.references_entity_with_markup(text):
                 ids.append('D13')
             elif len(set(names)) < len(names):
                 ids.append('D38')
@@ -153,13 +153,13 @@ def explain(text, impl_tokens, spec_tokens, verdict, run=None):
     # --- everything else
     if na != nb:
         if only_text_differs(na, nb):
-            if W.has_reference_to_markup_entity(text):
+            if W.references_entity_with_markup(text):
                 ids.append('D13')
             elif entity_with_ws_referenced_in_content(text):
                 ids.append('WF21')
             else:
                 return None
-        elif W.has_reference_to_markup_entity(text):
+        elif W.references_entity_with_markup(text):
             ids.append('D13')
         elif [t for k, t in enumerate(na) if not (t[:2] == 'u:' and any(x[:2] == 'u:' and x.split(':')[1] == t.split(':')[1] for x in na[:k]))] == nb:
             ids.append('WF22')
